@@ -282,6 +282,15 @@ func cmdDirected(quick bool) {
 				emit(tm, g.planStructMap(tm, keys, vals, mode), m, ver)
 			}
 		}
+		// keys with upper-case letters (only a tag can stand for them)
+		mkeys := []*aval{aBytes([]byte("userId")), aBytes([]byte("ZIP")), aBytes([]byte("k9"))}
+		mm := &aval{kind: "map"}
+		for i := range mkeys {
+			mm.pairs = append(mm.pairs, [2]*aval{mkeys[i], vals[i]})
+		}
+		for mode := 0; mode < 3; mode++ {
+			emit(tm, g.planStructMap(tm, mkeys, vals, mode), mm, primitive.ProtocolVersion4)
+		}
 		m2 := &aval{kind: "map", pairs: [][2]*aval{{keys[2], vint(7)}, {keys[0], vint(8)}}}
 		emit(tm, g.planStructMap(tm, []*aval{keys[2], keys[0]}, []*aval{vint(7), vint(8)}, 2), m2, primitive.ProtocolVersion2)
 	}
